@@ -1,5 +1,6 @@
 import MalVerif.Py.PreludeModel
 import MalVerif.Model.Legacy
+import MalVerif.Py.PyInt
 /-!
 # Prelude of the *translated* legacy loaders (`translators/py2lean_legacy.py`)
 
@@ -115,14 +116,25 @@ def jIter (d : PyJ) : Except LErr (List PyJ) :=
 def jIsDict : PyJ → Bool | .dict _ => true | _ => false
 def jIsList : PyJ → Bool | .list _ => true | _ => false
 
-/-- `int(x)`: an `int` is itself, a `str` is parsed (`ValueError`); (`float`, `bool`: not modelled); else `TypeError` -/
+-- `pyIsSpace`, `pyIntLenient`: `MalVerif/Py/PyInt.lean` (shared with the `mserial` / `agserial` preludes)
+
+/-- `int(x)`: an `int` is itself; a `str` that `String.toInt?` reads (ASCII digits with single underscores between them,
+optional `-`) is that number, as in Python; a `str` it refuses is a `ValueError` only when CPython's `int` refuses it
+too — a text with surrounding white space, a leading `+` or non-ASCII digits (`pyIntLenient`) is **not modelled**;
+(`float`, `bool`: not modelled); else `TypeError` -/
 def jInt (x : PyJ) : Except LErr Int :=
   match x with
   | .int i => .ok i
-  | .str t => match t.toInt? with | some i => .ok i | none => .error (.py .valueError)
+  | .str t =>
+    match t.toInt? with
+    | some i => .ok i
+    | none => if pyIntLenient t then .error .unmodelled else .error (.py .valueError)
   | .num _ => .error .unmodelled
   | .bool _ => .error .unmodelled
   | _ => .error .typeError
+
+theorem jInt_str_some (t : String) (i : Int) (h : t.toInt? = some i) : jInt (.str t) = .ok i := by
+  simp only [jInt, h]
 
 /-- `float(x)` of a float: its canonical text; (`int`, `str`, `bool`: not modelled); else `TypeError` -/
 def jFloat (x : PyJ) : Except LErr String :=
@@ -182,15 +194,20 @@ def allocT (s : H) (o : PyAtt) : H × TRef :=
 classes; a name that is only an association class counts as absent here.) -/
 def nsHasAsset (fac : Factory) (name : String) : Bool := (fac.L.findAsset name).isSome
 
-/-- `getattr(ns, cls)(name = n)`: `AttributeError` when there is no such class, `ValidationError` when the name
-is not a string; a new asset object with only `name` set (no `id`, no `extras`, no explicit defense) -/
+/-- `getattr(ns, cls)(name = n)`: `AttributeError` when there is no such class; a new asset object with only `name`
+set (no `id`, no `extras`, no explicit defense).  `name` is NOT a declared property of the generated classes:
+python_jsonschema_objects keeps any value but `None` as an additional property (`T(name=7).name` is the literal `7`;
+checked on the real library) — a name that is not a `str` has no place in `PyAsset.name : Option String`: **not
+modelled**; `name=None` sets nothing (`T(name=None)` is `T()`: `hasattr(obj, 'name')` is false, also checked), so
+`add_asset` gives the object its default name.  The constructor never raises `ValidationError` for a name. -/
 def nsNewAsset (fac : Factory) (s : H) (cls name : PyJ) : Except LErr (H × ARef) :=
   match cls with
   | .str c =>
     if !nsHasAsset fac c then .error (.py .attributeError) else
     match name with
     | .str n => .ok (allocA s { type := c, name := some n })
-    | _ => .error .validation
+    | .null => .ok (allocA s { type := c })
+    | _ => .error .unmodelled
   | _ => .error .typeError
 
 /-- `setattr(asset, defense_name, value)` with a float: `ValidationError` when the class has that defense and the
